@@ -42,7 +42,7 @@ pub struct Sizes {
 }
 
 impl Sizes {
-    /// The sizes of a medium case.  `t` is the threshold the case aims at (17 .. 260: just above
+    /// The sizes of a medium case.  `t` is the threshold the case aims at (17 .. 1030: just above
     /// the sizes at which implementations tend to change behaviour - inline buffers of 16 / 32 /
     /// 64 elements, 64-bit masks, u8 counters, blocked loops of 256) and `profile` says which
     /// dimension is blown up to it while the others stay small.
@@ -65,6 +65,13 @@ impl Sizes {
             }
             3 => s.edges = t,
             4 => s.nodes = t,
+            6 => {
+                // many distinct labels
+                s.nodes = t;
+                s.edges = self.edges * 4;
+                s.node_labels = t;
+                s.edge_labels = t.min(70);
+            }
             _ => {
                 s.nodes = self.nodes * 8;
                 s.edges = self.edges * 8;
@@ -119,6 +126,8 @@ pub struct Ctx {
     /// threshold and profile of a medium case (see `Sizes::medium`)
     pub medium_t: usize,
     pub medium_profile: usize,
+    /// number of choices the case consumed (set by `run_case`); a deterministic measure of its cost
+    pub consumed: usize,
     /// true in the release (non overflow-checking) build
     pub release_build: bool,
     pub want_sample: bool,
@@ -140,6 +149,7 @@ impl Ctx {
             medium: false,
             medium_t: 0,
             medium_profile: 0,
+            consumed: 0,
             release_build: !cfg!(debug_assertions),
             want_sample,
             classes: Vec::new(),
@@ -149,6 +159,13 @@ impl Ctx {
             discard: false,
             inconclusive: false,
             dump: String::new(),
+        }
+    }
+    /// a property whose cost grows faster than linearly with the diagram limits its medium cases
+    pub fn cap_medium(&mut self, max_t: usize) {
+        if self.medium && self.medium_t > max_t {
+            self.medium_t = max_t;
+            self.sizes = Sizes::of(self.tier).medium(max_t, self.medium_profile);
         }
     }
     /// length parameter of a check that does not use `sizes`: the threshold in a medium case
@@ -354,10 +371,14 @@ pub enum CaseOutcome {
 pub fn run_case(prop: &Prop, words: &[u32], ctx: &mut Ctx) -> CaseOutcome {
     let medium = crate::tape::is_medium(words);
     let mut tape = if medium {
-        const T: [usize; 8] = [17, 33, 34, 40, 65, 70, 130, 260];
+        const T: [usize; 10] = [17, 33, 34, 40, 65, 70, 130, 260, 520, 1030];
         ctx.medium = true;
-        ctx.medium_t = T[words.get(1).copied().unwrap_or(0) as usize % 8];
-        ctx.medium_profile = words.get(2).copied().unwrap_or(0) as usize % 6;
+        ctx.medium_profile = words.get(2).copied().unwrap_or(0) as usize % 7;
+        ctx.medium_t = T[words.get(1).copied().unwrap_or(0) as usize % 10];
+        // the two largest thresholds only where a single dimension grows
+        if matches!(ctx.medium_profile, 0 | 5 | 6) {
+            ctx.medium_t = ctx.medium_t.min(260);
+        }
         ctx.sizes = ctx.sizes.medium(ctx.medium_t, ctx.medium_profile);
         ctx.class("medium-size");
         Tape::extended(words)
@@ -365,6 +386,7 @@ pub fn run_case(prop: &Prop, words: &[u32], ctx: &mut Ctx) -> CaseOutcome {
         Tape::new(words)
     };
     let r = catch_unwind(AssertUnwindSafe(|| (prop.check)(&mut tape, ctx)));
+    ctx.consumed = tape.consumed();
     if !medium && tape.consumed() > words.len() {
         // the decoder wanted more choices than the tape had: the remainder was built minimally
         ctx.class("tape-exhausted");
@@ -569,6 +591,13 @@ fn still_fails(prop: &Prop, tier: Tier, known: &[Known], words: &[u32]) -> Optio
 
 /// own post-pass after proptest's shrinking: drop unused suffix, delete chunks, zero and
 /// halve words.  Bounded by a number of re-executions.
+/// number of re-executions a shrinking phase may spend: 3000 for ordinary cases, fewer for cases
+/// that consumed many choices (a medium case can cost a thousand times an ordinary one); a
+/// function of the case alone, so that the shrunk tape stays reproducible
+fn shrink_budget(consumed: usize) -> usize {
+    (2_000_000 / consumed.max(1)).clamp(40, 3000)
+}
+
 fn polish(
     prop: &Prop,
     tier: Tier,
@@ -666,7 +695,12 @@ pub fn shrink_failing_tape(prop: &Prop, tier: Tier, known: &[Known], words: Vec<
     // fuzzer tapes were generated with thorough sizes
     for t in [tier, Tier::Thorough, Tier::Quick] {
         if let Some(v) = still_fails(prop, t, known, &words) {
-            let (w, v) = polish(prop, t, known, words, v, 4000);
+            let cost = {
+                let mut ctx = Ctx::new(t, false);
+                let _ = run_case(prop, &words, &mut ctx);
+                ctx.consumed
+            };
+            let (w, v) = polish(prop, t, known, words, v, shrink_budget(cost));
             return Some(Failure {
                 words: w,
                 sub_check: v.sub_check,
@@ -738,7 +772,8 @@ pub fn run_worker(
                 // shrink with proptest's value tree (bounded number of re-executions)
                 let mut best_words = words.clone();
                 let mut best = v;
-                let mut budget = 3000usize;
+                let allowance = shrink_budget(ctx.consumed);
+                let mut budget = allowance;
                 if tree.simplify() {
                     loop {
                         if budget == 0 {
@@ -762,7 +797,7 @@ pub fn run_worker(
                         }
                     }
                 }
-                let (w, v) = polish(prop, tier, known, best_words, best, 3000);
+                let (w, v) = polish(prop, tier, known, best_words, best, allowance);
                 stats.failure = Some(Failure {
                     words: w,
                     sub_check: v.sub_check,
